@@ -49,8 +49,11 @@ def _strategy(draw):
         if draw(st.booleans()):
             idmap = draw(st.lists(st.integers(0, 99), min_size=len(bases), max_size=len(bases), unique=True))
             key_offset = 0
+    # a residue graph need not carry residue ids: they then follow from the node keys 0..n-1
+    no_resid = (route in ("gen_params", "graph") and key_offset == 0 and idmap is None
+                and draw(st.integers(0, 2)) == 0)
     return {"bases": bases, "circular": circular, "route": route, "bad": bad, "edge_labels": labels,
-            "key_offset": key_offset, "edge_order": edge_order, "node_order": node_order, "idmap": idmap,
+            "no_resid": no_resid, "key_offset": key_offset, "edge_order": edge_order, "node_order": node_order, "idmap": idmap,
             "rng": draw(st.integers(0, 2**31 - 1))}
 
 
@@ -115,7 +118,10 @@ def check(spec, ctx):
         off = spec.get("key_offset", 0)
         key = spec.get("idmap") or [i + off for i in range(n)]
         for i in (spec.get("node_order") or range(n)):
-            graph.add_node(key[i], resname=names[i], resid=i + 1)
+            if spec.get("no_resid"):
+                graph.add_node(key[i], resname=names[i])       # the residue ids follow from the node keys
+            else:
+                graph.add_node(key[i], resname=names[i], resid=i + 1)
         order = spec.get("edge_order") or list(range(n - 1))
         for i in order:
             graph.add_edge(key[i], key[i + 1])
@@ -242,8 +248,10 @@ def check_gen_params(spec, ctx, names):
     (ctx.dir / "dna.ff").write_text(text)
     letters = "".join(b[1] for b in spec["bases"])
     off = spec.get("key_offset", 0)
-    if off or spec.get("node_order"):
+    if off or spec.get("node_order") or spec.get("no_resid"):
         import json
+        if spec.get("no_resid"):
+            ctx.label("graph_without_resids")
         nn = len(names)
         listing = spec.get("node_order") or list(range(nn))
         if listing != sorted(listing):
@@ -252,7 +260,8 @@ def check_gen_params(spec, ctx, names):
         if spec.get("idmap"):
             ctx.label("arbitrary_node_keys")
         data = {"directed": False, "multigraph": False, "graph": {},
-                "nodes": [{"id": key[i], "resname": names[i], "resid": i + 1} for i in listing],
+                "nodes": [({"id": key[i], "resname": names[i]} if spec.get("no_resid") else
+                           {"id": key[i], "resname": names[i], "resid": i + 1}) for i in listing],
                 "edges": [{"source": key[i], "target": key[i + 1]} for i in range(nn - 1)]}
         if spec["circular"]:
             data["edges"].append({"source": key[0], "target": key[nn - 1], "linktype": "circle"})
